@@ -45,6 +45,7 @@ Violations(x) ==
         ver == IF x.v = 0 THEN 1 ELSE x.v
         first == IF x.v = 0 THEN 1 ELSE 2                 \* source line of the first generated line
         n == Len(x.lines)
+        nl == x.nlive                                     \* lines 1..nl form the entry block, the rest is dead code
         rows == [i \in 1..n |-> Row(x.lines[i].op, x.lines[i].n, x.lines[i].k, x.lines[i].s, ver)]
         unsureLines == { first + i - 1 : i \in { j \in 1..n : rows[j].conf = "unsure" } }
         insFlag == { first + i - 1 : i \in { j \in 1..n : rows[j].ver > ver /\ rows[j].conf = "sure" } }
@@ -56,10 +57,11 @@ Violations(x) ==
         hasApp == \E i \in 1..n : rows[i].mode = "app"
         hasSig == \E i \in 1..n : rows[i].mode = "sig"
         sure == \A i \in 1..n : rows[i].conf = "sure"
+        sureLive == \A i \in 1..nl : rows[i].conf = "sure"
         cost == LET RECURSIVE S(_)
                     S(i) == IF i = 0 THEN 0 ELSE S(i - 1) + rows[i].cost
-                IN S(n)
-        want == Tagged(x.lines, first, ver)
+                IN S(nl)
+        want == Tagged(SubSeq(x.lines, 1, nl), first, ver)
     IN
        V(o.ok, "c19.parse-error", -1, o.exc, "parses")
     \o (IF ~o.ok THEN << >> ELSE
@@ -72,9 +74,10 @@ Violations(x) ==
                   IF hasApp THEN "Stateful" ELSE IF hasSig THEN "Stateless" ELSE "Any")
              \o V(o.ctype = (IF hasApp THEN "ApprovalProgram" ELSE "LogicSig"), "c19.type", -1, o.ctype,
                   IF hasApp THEN "ApprovalProgram" ELSE "LogicSig"))
-       \o (IF sure /\ supported /\ Len(o.block_lines) = n + first - 1
+       \* dead code is assembled all the same: it is flagged for its version and decides the run mode (above)
+       \o (IF sureLive /\ supported /\ Len(o.block_lines) = nl + first - 1
            THEN V(o.block_cost = cost, "c19.block-cost", -1, o.block_cost, cost) ELSE << >>)
-       \o Cat([i \in 1..n |->
+       \o Cat([i \in 1..nl |->
                  IF i > Len(o.args) THEN V(FALSE, "c11.operands", first + i - 1, "missing", want[i])
                  ELSE V(o.args[i] = want[i], "c11.operands", first + i - 1, o.args[i], want[i])]))
 
